@@ -9,6 +9,15 @@
 //!                   set (NAF composition), column swap / conjugation, every level
 //!  * `keyswitch`    switching between two independent secret keys in both directions, every level
 //!  * `galois_plain` apply_galois_plain on coefficient-form (full and short) and NTT-form plaintexts
+//!
+//! size sections (every loop dimension across 8 / 16 / 64 / 128 / … / 4096 / 8192):
+//!  * `primes`       every key-switching consumer (apply_galois, rotations, column swap / conjugation, apply_keyswitching)
+//!                   on chains of 2 … 18 primes at N = 4 / 8, every level of them (1 … 17 data primes + special prime)
+//!  * `bigtab`       GaloisTool alone at N = 128 … 8192: `apply` / `apply_ntt` on a structured element family against the
+//!                   substitution X -> X^g (reference transform from refmodel::ntt), the `apply_ntt` table cache over the
+//!                   default key set and its colliding index classes in both call orders (thorough: every g on one tool)
+//!  * `big`          ciphertext level at N = 256 … 8192: every step with the default key set (NAF) and with exact-step keys,
+//!                   every odd g, structured steps on two levels, apply_keyswitching; many primes (9 … 18) at N = 1024 / 4096
 
 use crate::engine::*;
 use crate::he::*;
@@ -30,7 +39,10 @@ pub fn describe(rep: &Report) {
          all unit slot vectors, one dense polynomial and one dense slot vector); each executed operation is decrypted and compared with \
          the naive m(X)->m(X^g) (exact for BFV/BGV, within the a-priori bound for CKKS) and with the permuted decoded slots \
          (traces_validated counts these comparisons). A (level, operation) pair whose a-priori noise bound exceeds the decryption \
-         threshold is counted as skipped inside the case and never judged. non-trivial = at least one operation of the case was judged.",
+         threshold is counted as skipped inside the case and never judged. non-trivial = at least one operation of the case was judged. \
+         size sections: primes = the same three checks on chains of 2..18 primes at N = 4 / 8; bigtab: case = (log N, mode) on one GaloisTool; \
+         big: case = (parameter set, operation family, slice of its step / element list), alphabet = one slot vector with pairwise distinct \
+         entries + one dense polynomial everywhere, unit messages at the structured steps / elements.",
     );
     rep.assume("noise: fresh <= 21(2N+1)+(1+N)/2, each modulus switch adds <= (1+N)/2+1, each key switch adds <= 21*N*sum(q_i)/P+(1+N)/2 (x t for BGV); judged iff 8t(E+2) < q_level (CKKS: 4N(E+1)/scale < 0.2)");
     rep.assume("rotate_rows / rotate_vector by s > 0 rotate LEFT (element 3^s mod 2N), s < 0 right (3^-|s|); column swap / conjugation = element 2N-1 (SEAL semantics, comments of util/galois.rs)");
@@ -268,6 +280,22 @@ struct World {
     scale: f64,
     scale_bits: u32,
     seed: u64,
+    /// rg::slot_exponent(n, i) for every slot and its inverse map (the tables rg::batch_slot_perm rebuilds per call)
+    slot_exp: Vec<usize>,
+    slot_of: Vec<usize>,
+}
+
+impl World {
+    /// = rg::batch_slot_perm(n, g), from the tables computed once per world
+    fn batch_perm(&self, g: usize) -> Vec<usize> {
+        let m = 2 * self.n;
+        self.slot_exp.iter().map(|&e| self.slot_of[(e as u128 * g as u128 % m as u128) as usize]).collect()
+    }
+    /// = rg::ckks_slot_perm(n, g)
+    fn ckks_perm(&self, g: usize) -> Vec<(usize, bool)> {
+        let half = self.n / 2;
+        self.batch_perm(g)[..half].iter().map(|&j| if j < half { (j, false) } else { (j - half, true) }).collect()
+    }
 }
 
 fn world(c: &SCase, seed: u64, what: &str) -> Result<World, String> {
@@ -288,6 +316,11 @@ fn world(c: &SCase, seed: u64, what: &str) -> Result<World, String> {
     let scheme = c.spec.scheme;
     let batching = kit.ctx.first_context_data().unwrap().qualifiers().using_batching;
     let (benc, cenc) = if scheme == Scheme::CKKS { (None, Some(CKKSEncoder::new(kit.ctx.clone()))) } else { (Some(BatchEncoder::new(kit.ctx.clone())), None) };
+    let slot_exp: Vec<usize> = (0..c.spec.n).map(|i| rg::slot_exponent(c.spec.n, i)).collect();
+    let mut slot_of = vec![usize::MAX; 2 * c.spec.n];
+    for (i, &e) in slot_exp.iter().enumerate() {
+        slot_of[e] = i;
+    }
     Ok(World {
         scheme,
         n: c.spec.n,
@@ -302,6 +335,8 @@ fn world(c: &SCase, seed: u64, what: &str) -> Result<World, String> {
         scale: 2f64.powi(c.scale_bits as i32),
         scale_bits: c.scale_bits,
         seed,
+        slot_exp,
+        slot_of,
         kit,
     })
 }
@@ -351,11 +386,13 @@ enum Msg {
     DensePoly,
     Slot(usize, u8),
     DenseSlot,
+    /// slot vector with pairwise DISTINCT entries (size sections: one vector identifies the whole permutation)
+    Ramp,
 }
 
 impl Msg {
     fn dense(&self) -> bool {
-        matches!(self, Msg::DensePoly | Msg::DenseSlot)
+        matches!(self, Msg::DensePoly | Msg::DenseSlot | Msg::Ramp)
     }
 }
 
@@ -423,10 +460,16 @@ fn encode(w: &World, msg: &Msg) -> Result<Enc, String> {
                     let pt = ce.encode_f64_polynomial_new(&v, None, w.scale);
                     Enc { msg: msg.clone(), pt, coeffs: vec![], slots: None, cslots: None, rcoeffs: Some(v) }
                 }
-                Msg::Slot(..) | Msg::DenseSlot => {
+                Msg::Slot(..) | Msg::DenseSlot | Msg::Ramp => {
                     let mut v = vec![Complex::new(0.0, 0.0); n / 2];
                     match msg {
                         Msg::Slot(k, kind) => v[*k] = if *kind == 0 { Complex::new(1.0, 0.0) } else { Complex::new(0.0, 1.0) },
+                        Msg::Ramp => {
+                            // a 64 x 64 grid of spacing 1/2: pairwise distinct for N/2 <= 4096 slots
+                            for (i, x) in v.iter_mut().enumerate() {
+                                *x = Complex::new((i % 64) as f64 * 0.5 - 15.75, (i / 64 % 64) as f64 * 0.5 - 16.0);
+                            }
+                        }
                         _ => {
                             for (i, x) in v.iter_mut().enumerate() {
                                 *x = Complex::new((mix(i) % 5) as f64 * 0.5 - 1.0, (mix(i + n) % 5) as f64 * 0.5 - 0.75);
@@ -460,10 +503,16 @@ fn encode(w: &World, msg: &Msg) -> Result<Enc, String> {
                     let pt = be.encode_polynomial_new(&v[..len]);
                     Enc { msg: msg.clone(), pt, coeffs: v, slots: None, cslots: None, rcoeffs: None }
                 }
-                Msg::Slot(..) | Msg::DenseSlot => {
+                Msg::Slot(..) | Msg::DenseSlot | Msg::Ramp => {
                     let mut v = vec![0u64; n];
                     match msg {
                         Msg::Slot(k, kind) => v[*k] = if *kind == 0 { 1 } else { t - 1 },
+                        Msg::Ramp => {
+                            // pairwise distinct whenever N < t
+                            for (i, x) in v.iter_mut().enumerate() {
+                                *x = (i as u64 + 1) % t;
+                            }
+                        }
                         _ => {
                             for (i, x) in v.iter_mut().enumerate() {
                                 *x = mix(i + 7) % t;
@@ -479,6 +528,16 @@ fn encode(w: &World, msg: &Msg) -> Result<Enc, String> {
         }
     })
     .map_err(|p| format!("encoding {msg:?} panicked: {p}"))
+}
+
+/// Vectors in violation records: in full up to 64 entries, otherwise the 8 entries from the first disagreement on.
+fn window<T: std::fmt::Debug>(exp: &[T], obs: &[T], same: impl Fn(&T, &T) -> bool, want_exp: bool) -> String {
+    let v = if want_exp { exp } else { obs };
+    if exp.len() <= 64 && obs.len() <= 64 {
+        return format!("{v:?}");
+    }
+    let at = obs.iter().zip(exp).position(|(o, x)| !same(o, x)).unwrap_or(exp.len().min(obs.len()));
+    format!("len {} [{at}..]: {:?}", v.len(), &v[at.min(v.len())..(at + 8).min(v.len())])
 }
 
 fn pgalois_f64(a: &[f64], g: usize) -> Vec<f64> {
@@ -506,16 +565,16 @@ fn judge(w: &World, e: &Enc, g: usize, d: &Plaintext, tol: (f64, f64)) -> Result
             let obs = guard(|| ce.decode_polynomial_new(d)).map_err(|p| ("poly:decode-panic".to_string(), "decodable".to_string(), p))?;
             let exp = pgalois_f64(rc, g);
             if obs.len() != n || obs.iter().zip(&exp).any(|(o, x)| !((o - x).abs() <= tol.0 + 1e-7)) {
-                return Err(("poly".into(), format!("{exp:?} (tolerance {:e})", tol.0), format!("{obs:?}")));
+                return Err(("poly".into(), format!("{} (tolerance {:e})", window(&exp, &obs, |o, x| (o - x).abs() <= tol.0 + 1e-7, true), tol.0), window(&exp, &obs, |o, x| (o - x).abs() <= tol.0 + 1e-7, false)));
             }
             cmp += 1;
         }
         if let Some(cs) = &e.cslots {
             let obs = guard(|| ce.decode_new(d)).map_err(|p| ("slot:decode-panic".to_string(), "decodable".to_string(), p))?;
-            let perm = rg::ckks_slot_perm(n, g);
+            let perm = w.ckks_perm(g);
             let exp: Vec<Complex<f64>> = perm.iter().map(|&(j, cj)| if cj { cs[j].conj() } else { cs[j] }).collect();
             if obs.len() != n / 2 || obs.iter().zip(&exp).any(|(o, x)| !((o - x).norm() <= tol.1 + 1e-7)) {
-                return Err(("slot".into(), format!("{exp:?} (tolerance {:e})", tol.1), format!("{obs:?}")));
+                return Err(("slot".into(), format!("{} (tolerance {:e})", window(&exp, &obs, |o, x| (o - x).norm() <= tol.1 + 1e-7, true), tol.1), window(&exp, &obs, |o, x| (o - x).norm() <= tol.1 + 1e-7, false)));
             }
             cmp += 1;
         }
@@ -527,16 +586,16 @@ fn judge(w: &World, e: &Enc, g: usize, d: &Plaintext, tol: (f64, f64)) -> Result
         obs.resize(n, 0);
         let exp = pgalois(&e.coeffs, g, w.t);
         if obs != exp {
-            return Err(("poly".into(), format!("{exp:?}"), format!("{obs:?}")));
+            return Err(("poly".into(), window(&exp, &obs, |o, x| o == x, true), window(&exp, &obs, |o, x| o == x, false)));
         }
         cmp += 1;
         if let Some(sl) = &e.slots {
             let be = w.benc.as_ref().unwrap();
             let obs = guard(|| be.decode_new(d)).map_err(|p| ("slot:decode-panic".to_string(), "decodable".to_string(), p))?;
-            let perm = rg::batch_slot_perm(n, g);
+            let perm = w.batch_perm(g);
             let exp: Vec<u64> = perm.iter().map(|&j| sl[j]).collect();
             if obs != exp {
-                return Err(("slot".into(), format!("{exp:?}"), format!("{obs:?}")));
+                return Err(("slot".into(), window(&exp, &obs, |o, x| o == x, true), window(&exp, &obs, |o, x| o == x, false)));
             }
             cmp += 1;
         }
@@ -557,7 +616,7 @@ fn judge_rotation(w: &World, e: &Enc, s: Option<isize>, d: &Plaintext, tol: (f64
                 None => cs.iter().map(|c| c.conj()).collect(),
             };
             if obs.len() != half || obs.iter().zip(&exp).any(|(o, x)| !((o - x).norm() <= tol.1 + 1e-7)) {
-                return Err(("rot".into(), format!("{exp:?} (tolerance {:e})", tol.1), format!("{obs:?}")));
+                return Err(("rot".into(), format!("{} (tolerance {:e})", window(&exp, &obs, |o, x| (o - x).norm() <= tol.1 + 1e-7, true), tol.1), window(&exp, &obs, |o, x| (o - x).norm() <= tol.1 + 1e-7, false)));
             }
             return Ok(1);
         }
@@ -569,7 +628,7 @@ fn judge_rotation(w: &World, e: &Enc, s: Option<isize>, d: &Plaintext, tol: (f64
             None => rg::swap_rows(sl),
         };
         if obs != exp {
-            return Err(("rot".into(), format!("{exp:?}"), format!("{obs:?}")));
+            return Err(("rot".into(), window(&exp, &obs, |o, x| o == x, true), window(&exp, &obs, |o, x| o == x, false)));
         }
         return Ok(1);
     }
@@ -648,7 +707,10 @@ fn forms_agree(sec: &str, w: &World, op: &str, level: usize, a: &Ciphertext, b: 
 // ------------------------------------------------------------------------------------------------
 
 fn check_galois(c: &SCase, seed: u64) -> CaseOut {
-    let sec = "galois";
+    galois_impl("galois", c, seed)
+}
+
+fn galois_impl(sec: &str, c: &SCase, seed: u64) -> CaseOut {
     let w = match world(c, seed, sec) {
         Ok(w) => w,
         Err(e) => return CaseOut::skip(&e),
@@ -758,7 +820,10 @@ fn check_galois(c: &SCase, seed: u64) -> CaseOut {
 // ------------------------------------------------------------------------------------------------
 
 fn check_rotate(c: &SCase, seed: u64) -> CaseOut {
-    let sec = "rotate";
+    rotate_impl("rotate", c, seed)
+}
+
+fn rotate_impl(sec: &str, c: &SCase, seed: u64) -> CaseOut {
     let w = match world(c, seed, sec) {
         Ok(w) => w,
         Err(e) => return CaseOut::skip(&e),
@@ -936,7 +1001,10 @@ fn check_rotate(c: &SCase, seed: u64) -> CaseOut {
 // ------------------------------------------------------------------------------------------------
 
 fn check_keyswitch(c: &SCase, seed: u64) -> CaseOut {
-    let sec = "keyswitch";
+    keyswitch_impl("keyswitch", c, seed, None)
+}
+
+fn keyswitch_impl(sec: &str, c: &SCase, seed: u64, big: Option<bool>) -> CaseOut {
     let w = match world(c, seed, sec) {
         Ok(w) => w,
         Err(e) => return CaseOut::skip(&e),
@@ -955,7 +1023,7 @@ fn check_keyswitch(c: &SCase, seed: u64) -> CaseOut {
     let ksk_b2a = try_op!(sec, w, "create_keyswitching_key", 0, c.spec.label(), w.kit.keygen.create_keyswitching_key(other.secret_key(), false));
     let ksk_a2b = try_op!(sec, w, "create_keyswitching_key", 0, c.spec.label(), other.create_keyswitching_key(&w.kit.sk, false));
     let mut t = Tally { steps: 0, skipped: 0, ops: 0 };
-    for msg in alphabet(&w, true, true) {
+    for msg in if let Some(full) = big { big_alphabet(&w, full) } else { alphabet(&w, true, true) } {
         let e = match encode(&w, &msg) {
             Ok(e) => e,
             Err(p) => return CaseOut::fail(format!("{sec}:{:?}:encode:panic", w.scheme), "message encodable", p),
@@ -1214,6 +1282,601 @@ fn check_plain(pc: &PCase, seed: u64) -> CaseOut {
 }
 
 // ------------------------------------------------------------------------------------------------
+// size sections: many primes at tiny N, GaloisTool at large N, ciphertext operations at large N
+// ------------------------------------------------------------------------------------------------
+
+/// which key-switching consumer a many-prime case drives
+#[derive(Serialize, Deserialize, Clone, Copy, Debug, PartialEq, Eq, Hash)]
+pub enum Consumer {
+    /// apply_galois for every odd g (keys for all elements)
+    Galois,
+    /// rotate_rows / rotate_vector for every step, column swap / conjugation (key mode of the base case)
+    Rotate,
+    /// apply_keyswitching between two secret keys, both directions
+    KeySwitch,
+}
+
+#[derive(Serialize, Deserialize, Clone, Debug, Hash)]
+pub struct MCase {
+    pub op: Consumer,
+    pub base: SCase,
+}
+
+fn check_primes(c: &MCase, seed: u64) -> CaseOut {
+    match c.op {
+        Consumer::Galois => galois_impl("primes:galois", &c.base, seed),
+        Consumer::Rotate => rotate_impl("primes:rotate", &c.base, seed),
+        Consumer::KeySwitch => keyswitch_impl("primes:keyswitch", &c.base, seed, None),
+    }
+}
+
+/// bit sizes of a chain with `k` primes in total (k-1 data primes + the special prime, last)
+fn long_chain_bits(k: usize, flavour: usize) -> Vec<usize> {
+    match flavour {
+        // mixed sizes (both branches of the q_j <= q_i comparison inside the key-switching loop), special prime largest
+        0 => {
+            let pat = [45usize, 38, 52, 41, 59, 36, 49, 57];
+            let mut v: Vec<usize> = (0..k - 1).map(|i| pat[i % pat.len()]).collect();
+            v.push(60);
+            v
+        }
+        // all primes of one size: the special prime is the SMALLEST of them (`chain` hands out the largest first)
+        _ => vec![50; k],
+    }
+}
+
+/// the alphabet of the large-N sections: one slot vector with pairwise distinct entries, one dense polynomial,
+/// unit slots at the ends of the rows and the top monomial with a negative coefficient
+fn big_alphabet(w: &World, full: bool) -> Vec<Msg> {
+    let n = w.n;
+    let slots = w.scheme == Scheme::CKKS || w.batching;
+    let mut v = vec![Msg::DensePoly];
+    if slots {
+        v.push(Msg::Ramp);
+    }
+    if full {
+        v.push(Msg::Mono(n - 1, true));
+        if w.scheme == Scheme::CKKS {
+            v.extend([Msg::Slot(0, 0), Msg::Slot(n / 2 - 1, 1)]);
+        } else if w.batching {
+            v.extend([Msg::Slot(0, 0), Msg::Slot(n / 2 - 1, 0), Msg::Slot(n / 2, 1), Msg::Slot(n - 1, 0)]);
+        }
+    }
+    v
+}
+
+/// structured step family: 0, +-2^k, +-(2^k - 1), +-(2^k + 1), +-3*2^k for every k, +-(N/2 - 1) — O(log N) steps
+/// containing every 1-, 2- and some 3-term NAF shapes and all the boundaries 8 … 4096 (+-1)
+fn structured_steps(n: usize) -> Vec<isize> {
+    let half = (n / 2) as isize;
+    let mut v: Vec<isize> = vec![0];
+    let mut p = 1isize;
+    while p < half {
+        for d in [p - 1, p, p + 1, 3 * p] {
+            if d > 0 && d < half {
+                v.push(d);
+                v.push(-d);
+            }
+        }
+        p *= 2;
+    }
+    if half > 1 {
+        v.push(half - 1);
+        v.push(-(half - 1));
+    }
+    v.sort();
+    v.dedup();
+    v
+}
+
+/// short step family: every step of the default key set (direct), and one 2-term NAF shape of each kind (sum, difference,
+/// with the skipped N/2 term)
+fn few_steps(n: usize) -> Vec<isize> {
+    let half = (n / 2) as isize;
+    let mut v: Vec<isize> = vec![0];
+    let mut p = 1isize;
+    while p < half {
+        v.push(p);
+        v.push(-p);
+        p *= 2;
+    }
+    for d in [3, half / 2 + 1, half - 1] {
+        if d > 0 && d < half {
+            v.push(d);
+            v.push(-d);
+        }
+    }
+    v.sort();
+    v.dedup();
+    v
+}
+
+/// structured element family for the table cache: the default key set in the library's own order, then for each of
+/// its indices i the indices i +- 2^k (every k) — the classes that share a slot in any power-of-two direct-mapped
+/// cache —, then 1, 3, N-1, N+1, 2N-3, 2N-1
+fn cache_family(n: usize, default_in_order: &[usize]) -> Vec<usize> {
+    let m = 2 * n;
+    let mut v: Vec<usize> = default_in_order.to_vec();
+    for &g in default_in_order {
+        let i = (g - 1) / 2;
+        let mut p = 1usize;
+        while p < n {
+            v.push(2 * ((i + p) % n) + 1);
+            v.push(2 * ((i + n - p) % n) + 1);
+            p *= 2;
+        }
+    }
+    v.extend([1, 3 % m, n - 1, n + 1, m - 3, m - 1]);
+    let mut seen = std::collections::BTreeSet::new();
+    v.retain(|&g| g % 2 == 1 && g < m && seen.insert(g));
+    v
+}
+
+/// smaller family for the cache-less entry points: default set, 2^k +- 1 for every k, a few small and top elements
+fn elt_family(n: usize) -> Vec<usize> {
+    let m = 2 * n;
+    let mut v = rg::default_elts(n);
+    let mut p = 2usize;
+    while p <= m {
+        v.push((p + 1) % m);
+        v.push(p - 1);
+        p *= 2;
+    }
+    v.extend([1, 3 % m, 5 % m, 7 % m, m - 3, m - 1]);
+    v.retain(|&g| g % 2 == 1 && g < m);
+    v.sort();
+    v.dedup();
+    v
+}
+
+#[derive(Serialize, Deserialize, Clone, Copy, Debug, PartialEq, Eq, Hash)]
+pub enum GMode {
+    /// apply_ntt on one tool over the cache family in the given order, then the same order again (cached)
+    CacheFamily { reversed: bool },
+    /// apply_ntt on one tool for EVERY odd g ascending (filling), then every g descending (cached)
+    CacheAll,
+    /// apply (coefficient form) over the element family x structured polynomials x 3 moduli against the naive substitution
+    Coef,
+    /// apply_ntt(NTT(a), g) against the reference transform of a(X^g), element family x structured polynomials
+    Eval,
+}
+
+#[derive(Serialize, Deserialize, Clone, Debug, Hash)]
+pub struct GCase {
+    pub logn: usize,
+    pub mode: GMode,
+}
+
+fn check_bigtab(c: &GCase) -> CaseOut {
+    let n = 1usize << c.logn;
+    let m = 2 * n;
+    macro_rules! bad {
+        ($key:expr, $exp:expr, $obs:expr) => {
+            return CaseOut::fail(format!("bigtab:{}", $key), $exp, $obs)
+        };
+    }
+    let tool = match guard(|| GaloisTool::new(c.logn)) {
+        Ok(t) => t,
+        Err(p) => bad!(format!("new:panic:{}", panic_class(&p)), format!("GaloisTool::new({}) succeeds", c.logn), p),
+    };
+    let mut steps = 0u64;
+    let ident: Vec<u64> = (0..n as u64).collect();
+    let cached_pass = |order: &[usize], round: &str, steps: &mut u64| -> Option<CaseOut> {
+        for &g in order {
+            let exp = rg::ntt_perm(n, g);
+            let mut out = vec![u64::MAX; n];
+            match guard(|| tool.apply_ntt(&ident, g, &mut out)) {
+                Ok(()) => {
+                    if let Some(at) = out.iter().zip(&exp).position(|(&o, &e)| o != e as u64) {
+                        return Some(CaseOut::fail(
+                            format!("bigtab:apply_ntt:{round}:wrong"),
+                            format!("N={n} g={g} (index {}): result[{at}] = operand[{}]", (g - 1) / 2, exp[at]),
+                            format!("operand[{}]", out[at]),
+                        ));
+                    }
+                    *steps += 1;
+                }
+                Err(p) => return Some(CaseOut::fail(format!("bigtab:apply_ntt:{round}:panic:{}", panic_class(&p)), format!("N={n} g={g}: no panic"), p)),
+            }
+        }
+        None
+    };
+    match c.mode {
+        GMode::CacheFamily { reversed } => {
+            let dflt = match guard(|| tool.get_elts_all()) {
+                Ok(v) => v,
+                Err(p) => bad!(format!("get_elts_all:panic:{}", panic_class(&p)), format!("N={n}: no panic"), p),
+            };
+            let mut sorted = dflt.clone();
+            sorted.sort();
+            sorted.dedup();
+            if sorted != rg::default_elts(n) {
+                bad!("get_elts_all:wrong", format!("N={n} set {:?}", rg::default_elts(n)), format!("{dflt:?}"));
+            }
+            let mut fam = cache_family(n, &dflt);
+            if reversed {
+                fam.reverse();
+            }
+            for round in ["fill", "reuse"] {
+                if let Some(f) = cached_pass(&fam, round, &mut steps) {
+                    return f;
+                }
+            }
+        }
+        GMode::CacheAll => {
+            let mut all: Vec<usize> = (0..n).map(|i| 2 * i + 1).collect();
+            if let Some(f) = cached_pass(&all, "fill", &mut steps) {
+                return f;
+            }
+            all.reverse();
+            if let Some(f) = cached_pass(&all, "reuse", &mut steps) {
+                return f;
+            }
+        }
+        GMode::Coef => {
+            let q60 = *primes_1_mod(2 * n as u64, 60, 1).first().unwrap_or(&1152921504606846883);
+            for q in [2u64, 65537, q60] {
+                let md = Modulus::new(q);
+                let mut polys: Vec<Vec<u64>> = vec![(0..n as u64).map(|j| mul_mod(j + 1, 0x9E37_79B9, q)).collect()];
+                for k in [0, 1, n / 2 - 1, n / 2, n - 1] {
+                    for v in [1u64, q - 1] {
+                        let mut a = vec![0u64; n];
+                        a[k] = v;
+                        polys.push(a);
+                    }
+                }
+                for &g in &elt_family(n) {
+                    for a in &polys {
+                        let mut out = vec![0xDEADu64; n];
+                        match guard(|| tool.apply(a, g, &md, &mut out)) {
+                            Ok(()) => {
+                                let e = pgalois(a, g, q);
+                                if let Some(at) = out.iter().zip(&e).position(|(o, x)| o != x) {
+                                    bad!("apply:coef:wrong", format!("N={n} g={g} q={q}: coefficient {at} = {}", e[at]), format!("{}", out[at]));
+                                }
+                                steps += 1;
+                            }
+                            Err(p) => bad!(format!("apply:coef:panic:{}", panic_class(&p)), format!("N={n} g={g} q={q}: no panic"), p),
+                        }
+                    }
+                }
+            }
+        }
+        GMode::Eval => {
+            let Some(&q) = primes_1_mod(m as u64, 50, 1).first() else { return CaseOut::skip("no 50-bit NTT prime") };
+            let Some(psi) = crate::refmodel::ntt::min_primitive_root_2n_cyclic(n, q) else { return CaseOut::skip("no primitive root") };
+            let mut polys: Vec<Vec<u64>> = vec![(0..n as u64).map(|j| mul_mod(j + 1, 0x9E37_79B9_7F4A_7C15 % q, q)).collect()];
+            for k in [1, n - 1] {
+                let mut a = vec![0u64; n];
+                a[k] = q - 1;
+                polys.push(a);
+            }
+            for a in &polys {
+                let fa = crate::refmodel::ntt::fast_ntt(a, psi, q);
+                for &g in &elt_family(n) {
+                    let fb = crate::refmodel::ntt::fast_ntt(&pgalois(a, g, q), psi, q);
+                    let mut out = vec![u64::MAX; n];
+                    match guard(|| tool.apply_ntt(&fa, g, &mut out)) {
+                        Ok(()) => {
+                            if let Some(at) = out.iter().zip(&fb).position(|(o, x)| o != x) {
+                                bad!("apply_ntt:eval:wrong", format!("N={n} g={g} q={q} psi={psi}: NTT(a(X^g))[{at}] = {}", fb[at]), format!("{}", out[at]));
+                            }
+                            steps += 1;
+                        }
+                        Err(p) => bad!(format!("apply_ntt:eval:panic:{}", panic_class(&p)), format!("N={n} g={g}: no panic"), p),
+                    }
+                }
+            }
+        }
+    }
+    CaseOut::pass(true, h64(&(c.logn, c.mode)), steps)
+}
+
+#[derive(Serialize, Deserialize, Clone, Copy, Debug, PartialEq, Eq, Hash)]
+pub enum BigOp {
+    /// every step -(N/2-1)..N/2-1 (slice part/parts of that list)
+    RotateAll,
+    /// the structured step family (slice part/parts of it) + column swap / conjugation + refusals
+    RotateStruct,
+    /// the short step family (0, +-2^k for every k, +-3, +-(N/4+1), +-(N/2-1)) + column swap / conjugation + refusals
+    RotateFew,
+    /// apply_galois (key generated per element) + apply_galois_plain for every odd g (slice part/parts of 1, 3, …, 2N-1)
+    Galois,
+    /// apply_keyswitching between two secret keys
+    KeySwitch,
+}
+
+#[derive(Serialize, Deserialize, Clone, Debug, Hash)]
+pub struct BCase {
+    pub base: SCase,
+    pub op: BigOp,
+    pub part: usize,
+    pub parts: usize,
+    /// false: only the two dense messages (distinct-entry slot vector, dense polynomial); true: also the unit messages
+    /// (RotateAll / Galois: at the structured steps / elements only)
+    pub full: bool,
+}
+
+fn check_big(bc: &BCase, seed: u64) -> CaseOut {
+    let sec = "big";
+    let c = &bc.base;
+    if bc.op == BigOp::KeySwitch {
+        return keyswitch_impl("big:keyswitch", c, seed, Some(bc.full));
+    }
+    let w = match world(c, seed, sec) {
+        Ok(w) => w,
+        Err(e) => return CaseOut::skip(&e),
+    };
+    if w.scheme != Scheme::CKKS && !w.batching {
+        return CaseOut::skip("plain modulus does not support batching: rotations undefined");
+    }
+    let n = w.n;
+    let half = (n / 2) as isize;
+    let ckks = w.scheme == Scheme::CKKS;
+    let ev = &w.kit.eval;
+    let kg = &w.kit.keygen;
+    let mut t = Tally { steps: 0, skipped: 0, ops: 0 };
+
+    // messages and their ciphertexts at every level, once
+    let mut encs: Vec<(Enc, Vec<Ciphertext>)> = vec![];
+    for msg in big_alphabet(&w, bc.full) {
+        let e = match encode(&w, &msg) {
+            Ok(e) => e,
+            Err(p) => return CaseOut::fail(format!("{sec}:{:?}:encode:panic", w.scheme), "message encodable", p),
+        };
+        let cts = match ladder(&w, &w.kit.enc, &e.pt, false) {
+            Ok(v) => v,
+            Err(p) => return CaseOut::fail(format!("{sec}:{:?}:encrypt-or-modswitch:panic:{}", w.scheme, panic_class(&p)), "encrypt + mod_switch_to_next succeed", p),
+        };
+        t.skipped += (w.ids.len() - cts.len()) as u64;
+        encs.push((e, cts));
+    }
+    let slice = |len: usize| -> (usize, usize) { (bc.part * len / bc.parts.max(1), (bc.part + 1) * len / bc.parts.max(1)) };
+
+    if bc.op == BigOp::Galois {
+        let dflt = rg::default_elts(n);
+        let fam = elt_family(n);
+        let (lo, hi) = slice(n);
+        // one key set per chunk of elements: the whole slice (up to 256 keys in one object) for N <= 1024, 65 keys beyond
+        let chunk = if n <= 1024 { (hi - lo).max(1) } else { 65 };
+        let mut gk = GaloisKeys::default();
+        for i in lo..hi {
+            let g = 2 * i + 1;
+            if (i - lo) % chunk == 0 {
+                let elts: Vec<usize> = (i..hi.min(i + chunk)).map(|j| 2 * j + 1).collect();
+                gk = try_op!(sec, w, "create_galois_keys_from_elts", 0, format!("{} {} elements from g={g}", c.spec.label(), elts.len()), kg.create_galois_keys_from_elts(&elts, false));
+                for &h in &elts {
+                    if !gk.has_key(h) {
+                        return CaseOut::fail(format!("{sec}:{:?}:keygen:missing-key", w.scheme), format!("key for element {h} present in a set of {} keys", elts.len()), "has_key = false");
+                    }
+                }
+            }
+            let perm = rg::ntt_perm(n, g);
+            for (e, cts) in &encs {
+                if !e.msg.dense() && !fam.contains(&g) {
+                    continue;
+                }
+                for (level, ct) in cts.iter().enumerate() {
+                    let Some(tol) = w.room(level, 1) else {
+                        t.skipped += 1;
+                        continue;
+                    };
+                    let ctxs = || format!("{} level {level} g={g} msg={:?}", c.spec.label(), e.msg);
+                    let r = try_op!(sec, w, "apply_galois", level, ctxs(), ev.apply_galois_new(ct, g, &gk));
+                    t.ops += 1;
+                    if r.parms_id() != ct.parms_id() || r.size() != 2 || r.is_ntt_form() != ct.is_ntt_form() || r.scale() != ct.scale() {
+                        return CaseOut::fail(format!("{sec}:{:?}:apply_galois:{}:metadata", w.scheme, World::lvl(level)), format!("metadata preserved ({})", ct_meta(ct)), ct_meta(&r));
+                    }
+                    let d = try_op!(sec, w, "decrypt-after-apply_galois", level, ctxs(), w.kit.dec.decrypt_new(&r));
+                    match judge(&w, e, g, &d, tol) {
+                        Ok(k) => t.steps += k,
+                        Err((view, exp, obs)) => return CaseOut::fail(format!("{sec}:{:?}:apply_galois:{view}:{}:wrong", w.scheme, World::lvl(level)), format!("{}: {exp}", ctxs()), obs),
+                    }
+                    if e.msg.dense() && dflt.contains(&g) {
+                        let mut a = ct.clone();
+                        try_op!(sec, w, "apply_galois_inplace", level, ctxs(), ev.apply_galois_inplace(&mut a, g, &gk));
+                        let mut b = Ciphertext::new();
+                        try_op!(sec, w, "apply_galois(dest)", level, ctxs(), ev.apply_galois(ct, g, &gk, &mut b));
+                        if let Some(f) = forms_agree(sec, &w, "apply_galois", level, &r, &a, &b) {
+                            return f;
+                        }
+                        t.steps += 2;
+                    }
+                }
+                // plaintext level: coefficient form (BFV/BGV) and NTT form at the first level
+                if !ckks {
+                    let ctxs = || format!("{} plaintext g={g} msg={:?}", c.spec.label(), e.msg);
+                    let r = try_op!(sec, w, "apply_galois_plain:coef", 0, ctxs(), ev.apply_galois_plain_new(&e.pt, g));
+                    t.ops += 1;
+                    match judge(&w, e, g, &r, (0.0, 0.0)) {
+                        Ok(k) => t.steps += k,
+                        Err((view, exp, obs)) => return CaseOut::fail(format!("{sec}:{:?}:apply_galois_plain:coef:{view}:wrong", w.scheme), format!("{}: {exp}", ctxs()), obs),
+                    }
+                    if e.msg.dense() {
+                        let id = &w.ids[0];
+                        let k = w.kit.moduli_at(id).len();
+                        let pn = try_op!(sec, w, "transform_plain_to_ntt", 0, ctxs(), ev.transform_plain_to_ntt_new(&e.pt, id));
+                        let r = try_op!(sec, w, "apply_galois_plain:ntt", 0, ctxs(), ev.apply_galois_plain_new(&pn, g));
+                        t.ops += 1;
+                        let bad = r.data().len() != k * n || (0..k).any(|j| (0..n).any(|i| r.data()[j * n + i] != pn.data()[j * n + perm[i]]));
+                        if bad || r.parms_id() != pn.parms_id() {
+                            return CaseOut::fail(format!("{sec}:{:?}:apply_galois_plain:ntt:wrong", w.scheme), format!("{}: every residue polynomial permuted by the evaluation-order model", ctxs()), format!("{} words, first {:?}", r.data().len(), &r.data()[..8.min(r.data().len())]));
+                        }
+                        t.steps += 1;
+                    }
+                } else if e.msg.dense() {
+                    // CKKS plaintexts are in NTT form at the first level; encoding error only
+                    let ctxs = || format!("{} CKKS plaintext g={g} msg={:?}", c.spec.label(), e.msg);
+                    let r = try_op!(sec, w, "apply_galois_plain:ntt", 0, ctxs(), ev.apply_galois_plain_new(&e.pt, g));
+                    t.ops += 1;
+                    let k = w.kit.moduli_at(&w.ids[0]).len();
+                    let bad = r.data().len() != k * n || (0..k).any(|j| (0..n).any(|i| r.data()[j * n + i] != e.pt.data()[j * n + perm[i]]));
+                    if bad || r.parms_id() != e.pt.parms_id() || r.scale() != e.pt.scale() {
+                        return CaseOut::fail(format!("{sec}:{:?}:apply_galois_plain:ntt:wrong", w.scheme), format!("{}: every residue polynomial permuted by the evaluation-order model", ctxs()), format!("{} words, first {:?}", r.data().len(), &r.data()[..8.min(r.data().len())]));
+                    }
+                    let tc = 4.0 / w.scale;
+                    match judge(&w, e, g, &r, (tc, tc * n as f64)) {
+                        Ok(k) => t.steps += 1 + k,
+                        Err((view, exp, obs)) => return CaseOut::fail(format!("{sec}:{:?}:apply_galois_plain:{view}:wrong", w.scheme), format!("{}: {exp}", ctxs()), obs),
+                    }
+                }
+            }
+        }
+        return finish(sec, c, &t);
+    }
+
+    // rotations
+    let (rot_name, conj_name) = if ckks { ("rotate_vector", "complex_conjugate") } else { ("rotate_rows", "rotate_columns") };
+    let mode = format!("{:?}", c.keys).to_lowercase();
+    let structured = structured_steps(n);
+    let all_steps: Vec<isize> = match bc.op {
+        BigOp::RotateAll => (-(half - 1)..=(half - 1)).collect(),
+        BigOp::RotateFew => few_steps(n),
+        _ => structured.clone(),
+    };
+    let (lo, hi) = slice(all_steps.len());
+    let dflt = rg::default_elts(n);
+    let default_keys = if c.keys == KeyMode::Default { Some(try_op!(sec, w, "create_galois_keys", 0, c.spec.label(), kg.create_galois_keys(false))) } else { None };
+    if let Some(dk) = &default_keys {
+        for &g in &dflt {
+            if !dk.has_key(g) {
+                return CaseOut::fail(format!("{sec}:{:?}:create_galois_keys:missing-key", w.scheme), format!("default key set contains element {g}"), "has_key = false");
+            }
+        }
+    }
+    let exact_for = |s: isize| -> Result<GaloisKeys, CaseOut> {
+        let k = guard(|| kg.create_galois_keys_from_steps(&[s], false)).map_err(|p| {
+            CaseOut::fail(format!("{sec}:{:?}:create_galois_keys_from_steps:L0:panic:{}", w.scheme, panic_class(&p)), format!("create_galois_keys_from_steps succeeds ({} step {s})", c.spec.label()), p)
+        })?;
+        if !k.has_key(rg::elt_from_step(n, s)) {
+            return Err(CaseOut::fail(format!("{sec}:{:?}:create_galois_keys_from_steps:missing-key", w.scheme), format!("key for step {s} = element {} present", rg::elt_from_step(n, s)), "has_key = false"));
+        }
+        Ok(k)
+    };
+    for &s in &all_steps[lo..hi] {
+        // the level tools agree with the model on this step
+        for id in &w.ids {
+            let cd = w.kit.ctx.get_context_data(id).unwrap();
+            let o = try_op!(sec, w, "get_elt_from_step", 0, format!("step {s}"), cd.verif_galois_tool().get_elt_from_step(s));
+            if o != rg::elt_from_step(n, s) {
+                return CaseOut::fail(format!("{sec}:level-tool:get_elt_from_step:wrong"), format!("N={n} step={s} -> {}", rg::elt_from_step(n, s)), format!("{o}"));
+            }
+        }
+        let g = rg::elt_from_step(n, s);
+        let k = if c.keys == KeyMode::Exact || dflt.contains(&g) { 1 } else { rg::naf_ref(s as i64).len() };
+        let own;
+        let gk: &GaloisKeys = match &default_keys {
+            Some(dk) => dk,
+            None => {
+                own = match exact_for(s) {
+                    Ok(k) => k,
+                    Err(f) => return f,
+                };
+                &own
+            }
+        };
+        let opn = format!("{rot_name}:{mode}:{}", if k > 1 { "naf" } else { "direct" });
+        let is_structured = bc.op != BigOp::RotateAll || structured.contains(&s);
+        for (e, cts) in &encs {
+            if !e.msg.dense() && !is_structured {
+                continue;
+            }
+            for (level, ct) in cts.iter().enumerate() {
+                let Some(tol) = w.room(level, k) else {
+                    t.skipped += 1;
+                    continue;
+                };
+                let ctxs = || format!("{} level {level} step {s} keys={mode} msg={:?}", c.spec.label(), e.msg);
+                let r = if ckks { try_op!(sec, w, &opn, level, ctxs(), ev.rotate_vector_new(ct, s, gk)) } else { try_op!(sec, w, &opn, level, ctxs(), ev.rotate_rows_new(ct, s, gk)) };
+                t.ops += 1;
+                if s == 0 {
+                    if ct_fingerprint(&r) != ct_fingerprint(ct) {
+                        return CaseOut::fail(format!("{sec}:{:?}:{rot_name}:zero-step:changed", w.scheme), "step 0 returns the operand unchanged", ct_meta(&r));
+                    }
+                    t.steps += 1;
+                    continue;
+                }
+                let d = try_op!(sec, w, "decrypt-after-rotation", level, ctxs(), w.kit.dec.decrypt_new(&r));
+                let res = judge(&w, e, g, &d, tol).and_then(|a| judge_rotation(&w, e, Some(s), &d, tol).map(|b| a + b));
+                match res {
+                    Ok(k) => t.steps += k,
+                    Err((view, exp, obs)) => {
+                        return CaseOut::fail(format!("{sec}:{:?}:{opn}:{view}:{}:{}:wrong", w.scheme, if s < 0 { "neg" } else { "pos" }, World::lvl(level)), format!("{}: {exp}", ctxs()), obs)
+                    }
+                }
+                if e.msg == Msg::Ramp && is_structured && bc.op != BigOp::RotateFew {
+                    let mut a = ct.clone();
+                    let mut b = Ciphertext::new();
+                    if ckks {
+                        try_op!(sec, w, "rotate_vector_inplace", level, ctxs(), ev.rotate_vector_inplace(&mut a, s, gk));
+                        try_op!(sec, w, "rotate_vector(dest)", level, ctxs(), ev.rotate_vector(ct, s, gk, &mut b));
+                    } else {
+                        try_op!(sec, w, "rotate_rows_inplace", level, ctxs(), ev.rotate_rows_inplace(&mut a, s, gk));
+                        try_op!(sec, w, "rotate_rows(dest)", level, ctxs(), ev.rotate_rows(ct, s, gk, &mut b));
+                    }
+                    if let Some(f) = forms_agree(sec, &w, rot_name, level, &r, &a, &b) {
+                        return f;
+                    }
+                    t.steps += 2;
+                }
+            }
+        }
+    }
+    if bc.part == 0 {
+        // column swap / conjugation
+        let own;
+        let gk: &GaloisKeys = match &default_keys {
+            Some(dk) => dk,
+            None => {
+                own = match exact_for(0) {
+                    Ok(k) => k,
+                    Err(f) => return f,
+                };
+                &own
+            }
+        };
+        for (e, cts) in &encs {
+            for (level, ct) in cts.iter().enumerate() {
+                let Some(tol) = w.room(level, 1) else {
+                    t.skipped += 1;
+                    continue;
+                };
+                let ctxs = || format!("{} level {level} {conj_name} keys={mode} msg={:?}", c.spec.label(), e.msg);
+                let r = if ckks { try_op!(sec, w, conj_name, level, ctxs(), ev.complex_conjugate_new(ct, gk)) } else { try_op!(sec, w, conj_name, level, ctxs(), ev.rotate_columns_new(ct, gk)) };
+                t.ops += 1;
+                let d = try_op!(sec, w, "decrypt-after-conjugation", level, ctxs(), w.kit.dec.decrypt_new(&r));
+                let res = judge(&w, e, 2 * n - 1, &d, tol).and_then(|a| judge_rotation(&w, e, None, &d, tol).map(|b| a + b));
+                match res {
+                    Ok(k) => t.steps += k,
+                    Err((view, exp, obs)) => return CaseOut::fail(format!("{sec}:{:?}:{conj_name}:{mode}:{view}:{}:wrong", w.scheme, World::lvl(level)), format!("{}: {exp}", ctxs()), obs),
+                }
+            }
+        }
+        // steps of magnitude >= N/2 are refused
+        if let Some((_, cts)) = encs.first() {
+            for s in [half, -half, half + 1] {
+                let r = if ckks { guard(|| ev.rotate_vector_new(&cts[0], s, gk)) } else { guard(|| ev.rotate_rows_new(&cts[0], s, gk)) };
+                if let Ok(r) = r {
+                    return CaseOut::fail(format!("{sec}:{:?}:{rot_name}:step-range:accepted", w.scheme), format!("step {s} (|s| >= N/2 = {half}) refused"), ct_meta(&r));
+                }
+                t.steps += 1;
+            }
+        }
+    }
+    finish(sec, c, &t)
+}
+
+/// parameter sets of the large-N section: (N, chain bit sizes); t = 65537 (= 1 mod 2N for every N <= 32768), CKKS scale 2^40
+fn big_specs(n: usize, bits: &[usize], keys: KeyMode) -> Vec<SCase> {
+    let q = chain(n, bits);
+    vec![
+        SCase { spec: ParamSpec::new(Scheme::BFV, n, q.clone(), 65537), err: Noise::Real, scale_bits: 0, keys },
+        SCase { spec: ParamSpec::new(Scheme::BGV, n, q.clone(), 65537), err: Noise::Real, scale_bits: 0, keys },
+        SCase { spec: ParamSpec::new(Scheme::CKKS, n, q, 0), err: Noise::Real, scale_bits: 40, keys },
+    ]
+}
+
+// ------------------------------------------------------------------------------------------------
 // enumeration
 // ------------------------------------------------------------------------------------------------
 
@@ -1364,6 +2027,152 @@ pub fn sections(cfg: &RunCfg) -> Vec<Box<dyn AnySection>> {
             move |c: &PCase| check_plain(c, seed),
         )
         .deadline(Duration::from_secs(300)),
+    );
+
+    // ---- size sections -------------------------------------------------------------------------
+
+    // primes: every key-switching consumer on chains of 2..18 primes (1..17 data primes + special prime) at N = 4 / 8
+    let mut cases: Vec<MCase> = vec![];
+    for n in [4usize, 8] {
+        for k in 2..=18usize {
+            if n == 8 && !thorough && ![9, 17].contains(&k) {
+                continue;
+            }
+            for flavour in 0..2 {
+                if flavour == 1 && !thorough && ![9, 17].contains(&k) {
+                    continue;
+                }
+                let q = chain(n, &long_chain_bits(k, flavour));
+                let mut bases = vec![
+                    SCase { spec: ParamSpec::new(Scheme::BFV, n, q.clone(), 257), err: Noise::Real, scale_bits: 0, keys: KeyMode::Exact },
+                    SCase { spec: ParamSpec::new(Scheme::BGV, n, q.clone(), 65537), err: Noise::Real, scale_bits: 0, keys: KeyMode::Exact },
+                    SCase { spec: ParamSpec::new(Scheme::CKKS, n, q.clone(), 0), err: Noise::Real, scale_bits: if flavour == 0 { 40 } else { 30 }, keys: KeyMode::Exact },
+                ];
+                if thorough {
+                    let worst: Vec<SCase> = bases.iter().map(|b| SCase { err: Noise::AllMax, ..b.clone() }).collect();
+                    bases.extend(worst);
+                }
+                for base in bases {
+                    cases.push(MCase { op: Consumer::Galois, base: base.clone() });
+                    cases.push(MCase { op: Consumer::KeySwitch, base: base.clone() });
+                    cases.push(MCase { op: Consumer::Rotate, base: SCase { keys: KeyMode::Default, ..base.clone() } });
+                    if n == 8 {
+                        // at N = 4 the only steps are -1, 0, 1: exact and default key sets coincide
+                        cases.push(MCase { op: Consumer::Rotate, base });
+                    }
+                }
+            }
+        }
+    }
+    cases.sort_by_key(|c| (c.base.spec.q.len(), c.base.spec.n));
+    v.push(
+        E1::new(
+            "primes",
+            &format!(
+                "chains of k = 2..18 coefficient primes (k-1 = 1..17 data primes + special prime; mixed 36..59-bit sizes with a 60-bit special prime{}) at N = 4 (every k) and N = 8 ({}) x BFV t=257 / BGV t=65537 / CKKS x EVERY level of the chain (1..k-1 primes) x {{apply_galois for EVERY odd g, every rotation step with exact-step and default keys + column swap / conjugation, apply_keyswitching in both directions}} x full alphabet{}",
+                if thorough { "; all primes 50-bit with the special prime smallest" } else { "; all primes 50-bit for k = 9, 17" },
+                if thorough { "every k" } else { "k = 9, 17" },
+                if thorough { " x error script Real / AllMax" } else { "" }
+            ),
+            cases.into_iter(),
+            move |c: &MCase| check_primes(c, seed),
+        )
+        .deadline(Duration::from_secs(300)),
+    );
+
+    // bigtab: GaloisTool alone at large N
+    let mut cases: Vec<GCase> = vec![];
+    for logn in 7..=13usize {
+        cases.push(GCase { logn, mode: GMode::Coef });
+        cases.push(GCase { logn, mode: GMode::Eval });
+        if logn >= 10 {
+            cases.push(GCase { logn, mode: GMode::CacheFamily { reversed: false } });
+            cases.push(GCase { logn, mode: GMode::CacheFamily { reversed: true } });
+        }
+        if thorough && logn >= 12 {
+            cases.push(GCase { logn, mode: GMode::CacheAll });
+        }
+    }
+    v.push(
+        E1::new(
+            "bigtab",
+            &format!(
+                "GaloisTool alone, N = 128..8192: apply (coefficient form; default elements, 2^k+-1, small and top elements x dense + 10 unit monomials x moduli 2, 65537, 60-bit) and apply_ntt of the reference transform of the same polynomials against the substitution X -> X^g; N = 1024..8192: apply_ntt table cache on ONE tool over the default key set in library order + all index classes i +- 2^k of its members, forward and reversed order, each order twice (fill, reuse){}",
+                if thorough { "; N = 4096, 8192: EVERY odd g ascending (fill) then descending (reuse) on one tool" } else { "" }
+            ),
+            cases.into_iter(),
+            check_bigtab,
+        )
+        .batch(1)
+        .deadline(Duration::from_secs(300)),
+    );
+
+    // big: ciphertext operations at large N
+    let mut cases: Vec<BCase> = vec![];
+    let push = |cases: &mut Vec<BCase>, n: usize, bits: &[usize], keys: KeyMode, op: BigOp, parts: usize, full: bool| {
+        for base in big_specs(n, bits, keys) {
+            for part in 0..parts {
+                cases.push(BCase { base: base.clone(), op, part, parts, full });
+            }
+        }
+    };
+    // (a) few primes, every step / every element
+    let all_ns: Vec<usize> = if thorough { vec![256, 512, 1024, 2048, 4096, 8192] } else { vec![256, 1024] };
+    for &n in &all_ns {
+        let parts = (n / 256).max(1);
+        for keys in [KeyMode::Default, KeyMode::Exact] {
+            if thorough || n <= 256 || keys == KeyMode::Default {
+                push(&mut cases, n, &[60, 60], keys, BigOp::RotateAll, parts, true);
+            }
+        }
+        push(&mut cases, n, &[60, 60], KeyMode::Exact, BigOp::Galois, parts, true);
+    }
+    // (b) structured steps on two data levels
+    let struct_ns: Vec<usize> = if thorough { vec![128, 512, 2048, 4096, 8192] } else { vec![8192] };
+    for &n in &struct_ns {
+        let parts = if n >= 4096 { 4 } else { 1 };
+        if thorough {
+            push(&mut cases, n, &[50, 55, 60], KeyMode::Default, BigOp::RotateStruct, parts, true);
+            push(&mut cases, n, &[50, 55, 60], KeyMode::Exact, BigOp::RotateStruct, parts, true);
+        } else {
+            push(&mut cases, n, &[50, 55, 60], KeyMode::Default, BigOp::RotateFew, 1, false);
+        }
+        push(&mut cases, n, &[50, 55, 60], KeyMode::Exact, BigOp::KeySwitch, 1, thorough);
+    }
+    // (c) many primes at large N (every level): 10 primes at N = 1024; thorough 9 / 17 / 18 primes at N = 1024, 9 / 10 primes at N = 4096
+    let mut many: Vec<(usize, usize)> = vec![(1024, 10)];
+    if thorough {
+        many.extend([(1024, 9), (1024, 17), (1024, 18), (4096, 9), (4096, 10)]);
+    }
+    for &(n, k) in &many {
+        let bits = long_chain_bits(k, 0);
+        if thorough {
+            push(&mut cases, n, &bits, KeyMode::Default, BigOp::RotateStruct, 8, n * k <= 10240);
+        } else {
+            push(&mut cases, n, &bits, KeyMode::Default, BigOp::RotateFew, 3, false);
+        }
+        push(&mut cases, n, &bits, KeyMode::Exact, BigOp::KeySwitch, 1, thorough);
+    }
+    cases.sort_by_key(|c| (c.base.spec.n * c.base.spec.q.len(), c.part));
+    v.push(
+        E1::new(
+            "big",
+            &format!(
+                "BFV / BGV (t = 65537) / CKKS (scale 2^40); alphabet D = {{slot vector with pairwise distinct entries, dense polynomial}}, U = {{top monomial with coefficient -1, unit slots at the row ends}}. \
+                 (a) N in {all_ns:?}, one 60-bit data prime + special prime: EVERY step -(N/2-1)..N/2-1 with the default key set (NAF composition) and with a key generated for exactly that step{}; \
+                 apply_galois (key sets of 65 .. 256 elements) and apply_galois_plain (coefficient + NTT form) for EVERY odd g < 2N; D everywhere, U at the structured steps / elements. \
+                 (b) N in {struct_ns:?}, two data levels: {} keys, column swap / conjugation, refusals, apply_keyswitching both directions; D{}. \
+                 (c) (N, primes) in {many:?} at EVERY level: the same step family with default keys; D{}; apply_keyswitching",
+                if thorough { "" } else { " (N = 256 only)" },
+                if thorough { "structured steps (0, +-2^k, +-(2^k+-1), +-3*2^k, +-(N/2-1)) with default and exact-step" } else { "steps 0, +-2^k (every k), +-3, +-(N/4+1), +-(N/2-1) with default" },
+                if thorough { " + U" } else { "" },
+                if thorough { " (+ U for N = 1024 with 9, 10 primes)" } else { "" }
+            ),
+            cases.into_iter(),
+            move |c: &BCase| check_big(c, seed),
+        )
+        .batch(1)
+        .deadline(Duration::from_secs(600)),
     );
     v
 }
